@@ -73,6 +73,10 @@ mutual
     | .map _ _ _, t, h => by cases t <;> simp [checkVal] at h; simp [typeOf, h.1.1, h.1.2]
     | .set _ _, t, h => by cases t <;> simp [checkVal] at h; simp [typeOf, h.1]
     | .lam _ _ _, t, h => by cases t <;> simp [checkVal] at h; simp [typeOf, h.1.1, h.1.2]
+    | .contract _ _, t, h => by cases t <;> simp [checkVal] at h; simp [typeOf, h]
+    | .opTransfer .., t, h => by cases t <;> simp [checkVal] at h <;> rfl
+    | .opDelegate .., t, h => by cases t <;> simp [checkVal] at h <;> rfl
+    | .opEmit .., t, h => by cases t <;> simp [checkVal] at h <;> rfl
 end
 
 theorem HasTy.typeOf_eq {v : Val} {t : Ty} (h : HasTy v t) : typeOf v = t := hasTy_typeOf v t h
@@ -292,14 +296,14 @@ theorem strict_imp_lax :
     (motive_3 := fun vs t => checkVals true vs t = true → checkVals false vs t = true)
     (motive_4 := fun is s => ∀ r, typeSeq true is s = some r → typeSeq false is s = some r)
   all_goals (intros; try (simp_all [typeInstr, checkVal, checkVals, typeSeq]; done))
-  case case19 a' b' body a b ih h =>
+  case case25 a' b' body a b ih h =>
     cases hb : typeInstr true body [a] with
     | none => simp [checkVal, hb] at h
     | some rb => have := ih rb hb; simp only [checkVal, hb, this] at h ⊢; exact h
-  case case32 n body s hn r h => simp [typeInstr, hn] at h
-  case case49 body t s' x ih r h => have := ih _ x; simp only [typeInstr, x, this] at h ⊢; exact h
-  case case53 body t s' x ih r h => have := ih _ x; simp only [typeInstr, x, this] at h ⊢; exact h
-  case case57 body k v s' x ih r h => have := ih _ x; simp only [typeInstr, x, this] at h ⊢; exact h
+  case case38 n body s hn r h => simp [typeInstr, hn] at h
+  case case55 body t s' x ih r h => have := ih _ x; simp only [typeInstr, x, this] at h ⊢; exact h
+  case case59 body t s' x ih r h => have := ih _ x; simp only [typeInstr, x, this] at h ⊢; exact h
+  case case63 body k v s' x ih r h => have := ih _ x; simp only [typeInstr, x, this] at h ⊢; exact h
 
 /-- in either mode, a judgement of the development is in particular a judgement of the Michelson typing rules -/
 theorem typeInstr_lax [Mode] {i : Instr} {s : List Ty} {r : TRes} (h : typeInstr Mode.strict i s = some r) :
